@@ -16,7 +16,8 @@ Cls == CASE last.op = "new" -> (IF SignUniform(last.d) THEN "uniform" ELSE "mixe
          [] OTHER -> "-"
 Nz == "nz" \in DOMAIN last
 CaseOf ==
-  CASE last.op = "new" /\ Nz -> [op |-> "Duration.new", cls |-> Cls \o "/negative-zero", args |-> [dur |-> last.d, nz |-> TRUE], out |-> last.out]
+  CASE last.op = "new" /\ "half" \in DOMAIN last -> [op |-> "Duration.new", cls |-> "non-integral/" \o last.half, args |-> [dur |-> last.d, half |-> last.half], out |-> last.out]
+    [] last.op = "new" /\ Nz -> [op |-> "Duration.new", cls |-> Cls \o "/negative-zero", args |-> [dur |-> last.d, nz |-> TRUE], out |-> last.out]
     [] last.op \in {"negated", "abs", "sign"} /\ Nz -> [op |-> "Duration." \o last.op, cls |-> Cls \o "/negative-zero", args |-> [recv |-> last.a, nz |-> TRUE], out |-> last.out]
     [] last.op = "new" -> [op |-> "Duration.new", cls |-> Cls, args |-> [dur |-> last.d], out |-> last.out]
     [] last.op = "fromDayAndTime" -> [op |-> "Duration.fromDayAndTime", cls |-> Cls, args |-> [dur |-> last.d], out |-> last.out]
